@@ -2,7 +2,7 @@ import CalicoVerif.Proofs.C11Body
 /-!
 C11 — the targets computed by the compositional layer coincide with the
 REFERENCE semantics (`evalRules`/`evalPolicies`/`evalTiers`/`evalProfiles` of
-`Model/C11Ref`), for rules whose action is allow/deny/pass/next-tier.
+`Model/C11Ref`), for rules whose action is allow/deny/pass/next-tier/log.
 -/
 namespace CalicoVerif.C11
 
@@ -31,12 +31,11 @@ theorem tierActionLabel_actOf (al : Label) (tid : Nat) (a : String) :
   repeat' split
   all_goals simp_all
 
-theorem profileActionLabel_actOf (al : Label) (a : String) (h : actOf a ≠ .log) :
+theorem profileActionLabel_actOf (al : Label) (a : String) :
     profileActionLabel al a = (match actOf a with
-      | .allow => al | .deny => .deny | .log => .none | .pass => .deny | .invalid => .none) := by
-  unfold actOf at h
+      | .allow => al | .deny => .deny | .log => .log | .pass => .deny | .invalid => .none) := by
   unfold profileActionLabel actOf
-  simp only at h ⊢
+  simp only
   generalize asciiLower a = s at *
   by_cases h1 : s = "allow" <;> by_cases h2 : s = "deny" <;> by_cases h3 : s = "log" <;>
     by_cases h4 : s = "pass" <;> by_cases h5 : s = "next-tier" <;> simp_all
@@ -130,8 +129,15 @@ def profDec (al : Label) : Dec → Option Label
   | .allow => some al
   | _ => some .deny
 
+theorem profileAction_ok (al : Label) (r : Rule) (h : r.tierAction = true) :
+    ActOK (profileActionLabel al) r := by
+  unfold ActOK Rule.plainAction
+  unfold Rule.tierAction at h
+  rw [profileActionLabel_actOf]
+  cases ha : actOf r.action <;> simp [ha] at h ⊢
+
 theorem profilesTarget_eval (env : Env) (p : Pkt) (al : Label) (hal : al ≠ .log) :
-    ∀ ps : List Policy, (∀ pol ∈ ps, ∀ r ∈ pol.rules, r.plainAction = true) →
+    ∀ ps : List Policy, (∀ pol ∈ ps, ∀ r ∈ pol.rules, r.tierAction = true) →
       (policiesTarget env p .dest (profileActionLabel al) ps).or (some .deny) =
         profDec al (evalProfiles true env p ps) := by
   intro ps
@@ -142,8 +148,8 @@ theorem profilesTarget_eval (env : Env) (p : Pkt) (al : Label) (hal : al ≠ .lo
     have h1 := rulesTarget_eval env p .dest (profileActionLabel al) al .deny hal (by simp)
       (fun a => by
         refine ⟨?_, ?_, ?_⟩ <;> intro e <;>
-          (rw [profileActionLabel_actOf al a (by rw [e]; simp)]; simp [e]))
-      pol.rules (fun r hr => Or.inl (h pol (List.mem_cons_self) r hr))
+          (rw [profileActionLabel_actOf al a]; simp [e]))
+      pol.rules (fun r hr => profileAction_ok al r (h pol (List.mem_cons_self) r hr))
     have ih' := ih (fun pol' hp' => h pol' (List.mem_cons_of_mem _ hp'))
     simp only [policiesTarget, evalProfiles, h1]
     cases evalRules env p .dest pol.rules <;> simp [decLabel, profDec, ih']
